@@ -236,20 +236,17 @@ Section WithOracles.
 
   (* ------------------------------------------------------------ statistical_error *)
   (* for k, histogram in enumerate(self.histogram()): self.error_[k] = np.sqrt(histogram) *)
-  Fixpoint set_rows_from (k : nat) (src : list (list cell)) (dst : list (list cell)) : result (list (list cell)) :=
-    match src with
-    | [] => Ok dst
-    | r :: t =>
-        match nth_error dst k with
-        | None => Err IndexError
-        | Some old => if Nat.eqb (length old) (length r)
-                      then set_rows_from (S k) t (upd_nth k (fun _ => map csqrt r) dst)
-                      else Err ValueError
-        end
+  Fixpoint stat_rows (rows erows : list (list cell)) : result (list (list cell)) :=
+    match rows, erows with
+    | [], _ => Ok erows
+    | _ :: _, [] => Err IndexError
+    | r :: t, e :: et => if Nat.eqb (length e) (length r)
+                         then do rest <- stat_rows t et; Ok (map csqrt r :: rest)
+                         else Err ValueError
     end.
   Definition statistical_error (h : hist) : result hist :=
     match hH h, hERR h with
-    | A2 rows, A2 erows => do E' <- set_rows_from 0 rows erows;
+    | A2 rows, A2 erows => do E' <- stat_rows rows erows;
                            Ok (mkH (nbins h) (edges h) (nhist h) (hH h) (hRAW h) (A2 E') (hSCAL h) (hSYS h))
     | _, _ => Err Unmodelled
     end.
